@@ -1,12 +1,101 @@
 /-
-  Driver/OpsSpline.lean — driver ops of the "Spline" unit (stub: serves nothing yet).
-  Interface: return `none` for requests this unit does not serve, `some reply` otherwise.
+  Driver/OpsSpline.lean — driver ops of the cumulative-spline / BSpline unit (C11, C13).
+
+  Model ops (prec f64 | f32), words are IEEE bit patterns, `K`, `N` are sent as floating words:
+    cs_eval_vs  G  K Bcum[(K+1)²] u vs[K·dof]        → g vel acc jer
+    cs_eval_gs  G  K Bcum u gs[(K+1)·rep]            → g vel acc jer vs[K·dof]
+    cs_dg_dvs   G  K Bcum u vs[K·dof]                → dg_dvs dvel_dvs dacc_dvs   (row-major, dof × dof·K)
+    cs_dg_dgs   G  K Bcum u gs[(K+1)·rep]            → dg_dgs dvel_dgs dacc_dgs   (dof × dof·(K+1))
+    bs_eval     G  K Bcum t0 dt t ctrl[N·rep]        → g vel acc
+    bs_tminmax  _  K N t0 dt                         → t_min t_max
+    bs_select   _  K N t0 dt t                       → istar u              (diagnostic)
+  Audit ops (prec f64a) are in the second half of the file.
 -/
 import SmoothModel
 import Driver.Ops
+import Driver.Audit
+
+open Scalar Lin
 
 namespace Drv
+namespace Spl
 
-def runSpline (_op _grp _prec : String) (_args : Array String) : Option String := none
+variable {α : Type} [Scalar α] [ScalarTrunc α]
+
+def natOf (x : α) : Nat := (ScalarTrunc.trunc x).toNat
+
+def flat3 {G : LieModel α} (a b c : List (Mat α G.dof G.dof)) : Array α :=
+  CSpline.blocksToArray G.dof a ++ CSpline.blocksToArray G.dof b ++ CSpline.blocksToArray G.dof c
+
+@[specialize] def runModel (G : LieModel α) (op : String) (x : Array α) : Option (Except String (Array α)) :=
+  let K := natOf (g0 x 0)
+  let nb := (K + 1) * (K + 1)
+  let B : Mat α (K + 1) (K + 1) := memoM (matOfArray (K + 1) (K + 1) x 1)
+  match op with
+  | "cs_eval_vs" => some (do
+      if K = 0 then throw "K=0"
+      need x (2 + nb + K * G.dof)
+      let vs : Fin K → Vec α G.dof := fun j => memoV (ofArray G.dof x (2 + nb + j.val * G.dof))
+      let s := CSpline.eval_vs G vs B (g0 x (1 + nb))
+      return toArray s.g ++ toArray s.vel ++ toArray s.acc ++ toArray s.jer)
+  | "cs_dg_dvs" => some (do
+      if K = 0 then throw "K=0"
+      need x (2 + nb + K * G.dof)
+      let vs : Fin K → Vec α G.dof := fun j => memoV (ofArray G.dof x (2 + nb + j.val * G.dof))
+      let s := CSpline.eval_dg_dvs G vs B (g0 x (1 + nb))
+      return flat3 s.dg s.dvel s.dacc)
+  | "cs_eval_gs" => some (do
+      if K = 0 then throw "K=0"
+      need x (2 + nb + (K + 1) * G.rep)
+      let gs : Fin (K + 1) → Vec α G.rep := fun j => memoV (ofArray G.rep x (2 + nb + j.val * G.rep))
+      let s := CSpline.eval_gs G gs B (g0 x (1 + nb))
+      let vs := (List.finRange K).foldl (fun a j => a ++ toArray (CSpline.diffs G gs j)) #[]
+      return toArray s.g ++ toArray s.vel ++ toArray s.acc ++ toArray s.jer ++ vs)
+  | "cs_dg_dgs" => some (do
+      if K = 0 then throw "K=0"
+      need x (2 + nb + (K + 1) * G.rep)
+      let gs : Fin (K + 1) → Vec α G.rep := fun j => memoV (ofArray G.rep x (2 + nb + j.val * G.rep))
+      let s := CSpline.eval_dg_dgs G gs B (g0 x (1 + nb))
+      return flat3 s.dg s.dvel s.dacc)
+  | "bs_eval" => some (do
+      if K = 0 then throw "K=0"
+      let rem := x.size - (4 + nb)
+      if x.size < 4 + nb + (K + 1) * G.rep || rem % G.rep ≠ 0 then throw "arity"
+      let N := rem / G.rep
+      let ctrl : List (Vec α G.rep) := (List.range N).map (fun j => memoV (ofArray G.rep x (4 + nb + j * G.rep)))
+      let o := BSpline.eval G K B (g0 x (1 + nb)) (g0 x (2 + nb)) ctrl (g0 x (3 + nb))
+      return toArray o.g ++ toArray o.vel ++ toArray o.acc)
+  | "bs_tminmax" => some (do
+      need x 4
+      let N := natOf (g0 x 1)
+      return #[BSpline.t_min (g0 x 2), BSpline.t_max K N (g0 x 2) (g0 x 3)])
+  | "bs_select" => some (do
+      need x 5
+      let N := natOf (g0 x 1)
+      let s := BSpline.select K N (g0 x 2) (g0 x 3) (g0 x 4)
+      return #[nat s.1, s.2])
+  | _ => none
+
+@[specialize] def runNum (op grp : String) (x : Array α) : Option (Except String (Array α)) :=
+  if !(op.startsWith "cs_" || op.startsWith "bs_") then none else
+  match groupOf (α := α) grp with
+  | none => some (.error s!"unknown-group {grp}")
+  | some G => runModel G op x
+
+end Spl
+
+def runSpline (op grp prec : String) (args : Array String) : Option String :=
+  if !(op.startsWith "cs_" || op.startsWith "bs_") then none else
+  if prec == "f64" then
+    match Spl.runNum (α := Float) op grp (args.map Bits.ofHex) with
+    | some (.ok out) => some (" ".intercalate (out.toList.map Bits.toHex))
+    | some (.error e) => some ("ERR " ++ e)
+    | none => none
+  else if prec == "f32" then
+    match Spl.runNum (α := Float32) op grp (args.map Bits.ofHex) with
+    | some (.ok out) => some (" ".intercalate (out.toList.map Bits.toHex))
+    | some (.error e) => some ("ERR " ++ e)
+    | none => none
+  else none
 
 end Drv
